@@ -22,4 +22,43 @@ fn main() {
     }
     let out = Path::new(&env::var("OUT_DIR").unwrap()).join("uni.rs");
     fs::write(out, format!("acc_unicode!({});\n", names.join(", "))).unwrap();
+
+    // `AccShow` for every arity the runtime crate itself provides: one `seq!(SeqN, N, …)` /
+    // `choices!(ChoiceN, choiceN, N, …)` invocation per arity in sequence.rs / choices.rs.
+    let mut arities = String::new();
+    for (file, mac, prefix) in [("src/sequence.rs", "seq!(", "Seq"), ("src/choices.rs", "choices!(", "Choice")] {
+        let p = Path::new(path).join(file);
+        println!("cargo:rerun-if-changed={}", p.display());
+        let text = fs::read_to_string(&p).unwrap_or_default();
+        let code: Vec<&str> = text.lines().map(|l| l.split("//").next().unwrap_or("")).collect();
+        let src: String = code.join(" ").split_whitespace().collect::<Vec<_>>().join("");
+        let mut seen = vec![];
+        let mut rest = src.as_str();
+        while let Some(i) = rest.find(mac) {
+            // an invocation at item level is preceded by `;`, `}` or nothing (not by `macro_rules!` text like `$crate::`)
+            let before = rest[..i].chars().last();
+            rest = &rest[i + mac.len()..];
+            if !(before.is_none() || before == Some(';') || before == Some('}')) {
+                continue;
+            }
+            if let Some(r) = rest.strip_prefix(prefix) {
+                let digits: String = r.chars().take_while(|c| c.is_ascii_digit()).collect();
+                if let Ok(n) = digits.parse::<usize>() {
+                    if n >= 2 && r[digits.len()..].starts_with(',') && !seen.contains(&n) {
+                        seen.push(n);
+                    }
+                }
+            }
+        }
+        for n in seen {
+            if prefix == "Seq" {
+                let args: Vec<String> = (0..n).map(|k| format!("(T{}, {}),", k, k)).collect();
+                arities.push_str(&format!("acc_seq!(Seq{}, {}, {});\n", n, n, args.join(" ")));
+            } else {
+                let args: Vec<String> = (0..n - 1).map(|k| format!("(T{}, _{}, {}),", k, k, k)).collect();
+                arities.push_str(&format!("acc_choice!(Choice{}, {}, {} ; (T{}, _{}, {}));\n", n, n, args.join(" "), n - 1, n - 1, n - 1));
+            }
+        }
+    }
+    fs::write(Path::new(&env::var("OUT_DIR").unwrap()).join("arities.rs"), arities).unwrap();
 }
